@@ -254,7 +254,8 @@ def prepare_pdu(repo: Repo, chk: Check, fixed_tr: Lin) -> None:
             continue
         n += 1
         facts = implied(st.conds)
-        sealed = any(c.info.get("truthy") == "self._auth" and pol for c, pol in facts) and any(c.info.get("truthy") == "encrypt_offsets" and pol for c, pol in facts)
+        eo_name = f.params[2] if len(f.params) > 2 else "encrypt_offsets"
+        sealed = any(c.info.get("truthy") == "self._auth" and pol for c, pol in facts) and any(c.info.get("truthy") == eo_name and pol for c, pol in facts)
         site = Site.of(f, out.node, f"_prepare_pdu [{'sealed' if sealed else 'clear'}]")
         packed = [s for s in st.stores]
         okp = False
@@ -279,8 +280,8 @@ def prepare_pdu(repo: Repo, chk: Check, fixed_tr: Lin) -> None:
             chk.ob("O4", site, okw, "returns the wrapped PDU" if okw else "the sealed path does not return self._auth.wrap(...)")
             if not wr:
                 continue
-            o0 = Lin.atom(("field", "encrypt_offsets[0]"))
-            o1 = Lin.atom(("field", "encrypt_offsets[1]"))
+            o0 = Lin.atom(("field", f"{eo_name}[0]"))
+            o1 = Lin.atom(("field", f"{eo_name}[1]"))
             want = [("header", None, o0), ("body", o0, o1), ("security trailer header", o1, o1 + fixed_tr)]
             for i, (what, lo, hi) in enumerate(want):
                 a = wr[0].arg(i)
